@@ -2,6 +2,7 @@
 From Model Require Import Engine.
 From Spec Require Import Sem FindSpec.
 From Proofs Require Import RefineBase RefineExec Refine Attempt FindCorrect Transparent SemSound.
+From Proofs Require StackDiscipline.
 
 (* The variables reported with each match are the bindings of the specification's first outcome at
    that offset (sp_env), i.e. those built along the successful derivation only. *)
@@ -35,6 +36,26 @@ Theorem C02_backref_exact :
   ref_outs text n (p, e) = if bytes_eqb v (read text p (length v)) then [(p + length v, e)] else [].
 Proof. exact backref_exact. Qed.
 Print Assumptions C02_backref_exact.
+
+(* The mechanism, for ARBITRARY bytecode (named loops and their iteration maps included): one VM step either
+   pushes new checkpoints on top of the backtrack stack or resumes a saved core and drops what was above
+   it; saved cores are never modified, and a capture (EndVar) writes into the running core only.  So when a
+   path is abandoned the VM continues from a core exactly as it was at the choice point: whatever the
+   abandoned path bound - in the environment or in a named loop's iteration map - is not there. *)
+Theorem C02_checkpoints_immutable :
+  forall prog text c B,
+  match step prog text c B with
+  | Running c' B' => (exists new, B' = new ++ B) \/ (exists pre, B = pre ++ c' :: B')
+  | _ => True
+  end.
+Proof. exact StackDiscipline.step_stack_discipline. Qed.
+Print Assumptions C02_checkpoints_immutable.
+
+Theorem C02_capture_writes_running_core_only :
+  forall prog text c B n, nth_error prog (pc c) = Some (IEndVar n) ->
+  match step prog text c B with Running _ B' => B' = B | _ => True end.
+Proof. exact StackDiscipline.endvar_touches_running_core_only. Qed.
+Print Assumptions C02_capture_writes_running_core_only.
 
 (* non-vacuity: ('a' = x 'b') or ('a' 'c') on "ac": the only outcome has no binding for x *)
 Definition ex2 : rx :=
